@@ -2,6 +2,7 @@ SPECIFICATION Spec
 CONSTANTS
   Line = 2
   NCaches = 1
+  TrackWrites = TRUE
   MaxInFlight = 2
   MCReqs <- MCReqSetQ
   MaxReq = 3
